@@ -68,6 +68,14 @@ func (t *c18Tainter) val(kind string) string {
 	case 8:
 		s = strings.NewReplacer("<", "\xe2\x82<", `"`, "\xc3\"", "'", "\xf0\x9f'", "&", "\xe9x&", ">", "\xe9y>").Replace(s)
 	}
+	// a combining mark as the very first character of the value (it follows
+	// whatever the page puts in front of the value)
+	switch k % 13 {
+	case 6:
+		s = "\u0338" + s
+	case 11:
+		s = []string{"\u0301", "\u20d2", "\u0338\u0338", "\ufe0f", "\u200d"}[k%5] + s
+	}
 	if t.benign {
 		// punctuation that no HTML context cares about, but that every string
 		// routine of the library (name cleaning, file keys, sorting) treats like
@@ -89,7 +97,13 @@ func c18Doc(seed uint64, benign bool) (string, *c18Tainter) {
 	t := &c18Tainter{benign: benign, kinds: map[int]string{}, style: int(seed % 3)}
 	// anything from "everybody died long ago" to "everybody is alive": the hide
 	// and placeholder modes leave rows, cells and whole groups out
-	g := gen.NewFG(r, gen.FGOpts{People: r.Range(2, 9), ExactDates: true, NoLiving: false, StartYear: []int{1800, 1800, 1900, 1940, 1970, 1995}[r.Intn(6)]})
+	people := r.Range(2, 9)
+	if seed%10 == 3 {
+		// dozens of different surnames under one letter, dozens of places:
+		// components may switch to another rendering for long lists
+		people = r.Range(28, 40)
+	}
+	g := gen.NewFG(r, gen.FGOpts{People: people, ExactDates: true, NoLiving: false, StartYear: []int{1800, 1800, 1900, 1940, 1970, 1995}[r.Intn(6)]})
 	g.Head = true
 	ptrs := map[string]string{}
 	for _, p := range g.People {
